@@ -68,6 +68,14 @@ STR_NE = [{"name": "std::string != -> abstract identity comparison", "pattern": 
 RX_SET_CACHE = {"main": "src/randomx.cpp", "keep": ["randomx_vm_set_cache", "randomx_vm::getMemory", "randomx_vm::usesCache"], "pre_rewrites": STR_NE,
                 "must_fire": {"recipe rewrite: std::string != -> abstract identity comparison": 1}}
 
+# randomx_init_cache: std::string operations -> the abstract string model of the extractor prelude
+STR_OPS = [{"name": "local std::string -> rxv_string", "pattern": r"\bstd::string (\w+);", "repl": r"rxv_string \1 = { 0, 0, 0 };"},
+           {"name": "std::string::assign -> rxv_string_assign", "pattern": r"\b(\w+(?:->\w+)*)\.assign\(", "repl": r"rxv_string_assign(&\1, "},
+           {"name": "std::string::compare -> rxv_string_compare", "pattern": r"\b(\w+(?:->\w+)*)\.compare\(", "repl": r"rxv_string_compare(&\1, "},
+           {"name": "std::string != -> abstract identity comparison", "pattern": r"cache->cacheKey != cacheKey", "repl": "!rxv_string_eq(&cache->cacheKey, &cacheKey)"}]
+RX_INIT_CACHE = {"main": "src/randomx.cpp", "keep": ["randomx_init_cache"], "pre_rewrites": STR_OPS,
+                 "not_methods": ["initialize", "dealloc"], "must_fire": {}}
+
 VM_INTERP_LIGHT = {"main": "src/vm_interpreted_light.cpp", "keep": ["InterpretedLightVm::datasetRead", "InterpretedLightVm::setCache"],
                    "flatten": {"root": "randomx_vm", "concrete": "InterpretedLightVm",
                                "chain": ["randomx_vm", "VmBase", "BytecodeMachine", "InterpretedVm", "InterpretedLightVm"]}}
